@@ -41,6 +41,7 @@ def jobs(tier, seed):
     for fn in ('nanmax', 'maxabs', 'opposite_min', 'nansum', 'abssum'):
         for sh in shapes:
             js.append(dict(name=f'disc-{fn}-{"x".join(map(str, sh))}', kind='disc', fn=fn, shape=list(sh)))
+        js.append(dict(name=f'disc-{fn}-infinite', kind='disc-inf', fn=fn))
     return js
 
 
@@ -201,10 +202,54 @@ def job_disc(job, res):
     explore(res, body, max_paths=5000, timeout_ms=20000)
 
 
+INF_PATTERNS = [('+inf', 's', 'nan'), ('+inf', '-inf', 's'), ('-inf', 's', 's'), ('s', '+inf', '+inf'), ('-inf', 'nan', '-inf'), ('s', 's', 'nan')]
+
+
+def job_disc_inf(job, res):
+    """Infinite entries: they take part in the reduction with the usual extended-real rules (only NaN is ignored)."""
+    fn = getattr(_mod['disc'], job['fn'])
+    name = job['fn']
+
+    def body(ex, pr):
+        for pat in INF_PATTERNS:
+            x = S.sym_real('x', (2, len(pat)), 'float64')          # two rows: row 1 carries the pattern, row 0 stays finite
+            for i, p_ in enumerate(pat):
+                if p_ != 's':
+                    x.c[1, i] = {'nan': math.nan, '+inf': math.inf, '-inf': -math.inf}[p_]
+            syms = [E.R(x.c[1, i]) for i, p_ in enumerate(pat) if p_ == 's']
+            wit = lambda m, pat=pat, x=x: dict(kind='disc-inf', fn=name, pattern=list(pat), value=[float(m.eval(t, model_completion=True).as_fraction()) if E.is_sym(t) else None for t in S.terms(x)], key=dict(kind='disc-inf', fn=name))  # noqa: E731
+            done, out = guarded(pr, f'{name}({list(pat)})', wit, lambda: fn(x))
+            if not done:
+                continue
+            r = S._w(out).c.reshape(-1)[1]
+            pinf, minf = '+inf' in pat, '-inf' in pat
+            tr = {'nanmax': lambda v: v, 'maxabs': lambda v: z3.If(v >= 0, v, -v), 'opposite_min': lambda v: -v, 'nansum': lambda v: v, 'abssum': lambda v: z3.If(v >= 0, v, -v)}[name]
+            if name in ('maxabs', 'abssum'):
+                want = math.inf if (pinf or minf) else None
+            elif name == 'nanmax':
+                want = math.inf if pinf else (-math.inf if (minf and not syms) else None)
+            elif name == 'opposite_min':
+                want = math.inf if minf else (-math.inf if (pinf and not syms) else None)
+            else:
+                want = math.nan if (pinf and minf) else (math.inf if pinf else (-math.inf if minf else None))
+            if want is not None:
+                ok = E.is_special(r) and ((r != r) if want != want else r == want)
+                goal = z3.BoolVal(bool(ok))
+            elif E.is_special(r) or not syms:
+                goal = z3.BoolVal(False)
+            elif name in ('nansum', 'abssum'):
+                goal = E.R(r) == z3.Sum([tr(v) for v in syms])
+            else:
+                vals = [tr(v) for v in syms]
+                goal = z3.And(z3.And(*[E.R(r) >= v for v in vals]), z3.Or(*[E.R(r) == v for v in vals]))
+            pr.prove(goal, f'{name}({list(pat)}) (s = any real): infinite entries take part in the reduction, only NaN is ignored (result {r if not E.is_sym(r) else "symbolic"})', wit, sample=False)
+    explore(res, body, max_paths=64, timeout_ms=20000)
+
+
 def run_job(job):
     res = new_result(job['name'])
     CTX.reset()
-    {'pop': job_pop, 'groups': job_groups, 'mono': job_mono, 'disc': job_disc}[job['kind']](job, res)
+    {'pop': job_pop, 'groups': job_groups, 'mono': job_mono, 'disc': job_disc, 'disc-inf': job_disc_inf}[job['kind']](job, res)
     return res
 
 
@@ -237,6 +282,24 @@ def replay(w):
         got = models.Monobit(w['bit'])(v)
         exp = ((v.astype('int64') >> w['bit']) & 1).astype('uint8')
         return dict(reproduced=(got != exp).any(), detail=f'Monobit({w["bit"]})({v.tolist()}) = {got.tolist()} expected {exp.tolist()}')
+    if w['kind'] == 'disc-inf':
+        import math
+        n_ = len(w['pattern'])
+        vals = []
+        for p_, x in zip(w['pattern'], w['value'][n_:]):
+            vals.append({'nan': math.nan, '+inf': math.inf, '-inf': -math.inf}.get(p_, x))
+        v = np.array([w['value'][:n_], vals], dtype='float64')
+        fn = getattr(discriminants, w['fn'])
+        with np.errstate(all='ignore'):
+            got = float(fn(v)[1])
+        tr = {'nanmax': lambda a: a, 'maxabs': abs, 'opposite_min': lambda a: -a, 'nansum': lambda a: a, 'abssum': abs}[w['fn']]
+        lane = [tr(a) for a in vals if a == a]
+        if w['fn'] in ('nansum', 'abssum'):
+            exp = math.nan if (math.inf in lane and -math.inf in lane) else sum(lane)
+        else:
+            exp = max(lane) if lane else math.nan
+        bad = not ((got != got and exp != exp) or got == exp or (math.isfinite(got) and math.isfinite(exp) and abs(got - exp) <= 1e-9 * max(1.0, abs(exp))))
+        return dict(reproduced=bool(bad), detail=f'{w["fn"]}({vals}) = {got} expected {exp}')
     if w['kind'] == 'disc':
         if w['value'] is None:
             return dict(reproduced=False, detail='shape failure is only reported from the symbolic run')
